@@ -322,6 +322,10 @@ pub fn check(b: &Bridge, w: &World) -> (Vec<(String, String)>, Regions) {
 
 /// the fixed small instance of the bounded-exhaustive part
 pub fn small_instance() -> Value {
+    small_instance_with(100000)
+}
+
+pub fn small_instance_with(max_distance: i64) -> Value {
     json!({
         "vehicleTypes": [{"id": "V", "capacity": 100, "seats": 50}],
         "locations": [{"id": "L0"}, {"id": "L1"}],
@@ -339,11 +343,11 @@ pub fn small_instance() -> Value {
             {"id": "d2", "route": "r0", "segments": [{"id": "c", "routeSegment": "r0s", "departure": "2024-03-04T12:00:00", "passengers": 300, "seated": 10}]},
             {"id": "d3", "route": "r1", "segments": [{"id": "d", "routeSegment": "r1s", "departure": "2024-03-04T14:00:00", "passengers": 300, "seated": 10}]}
         ],
-        "maintenanceSlots": [{"id": "m", "location": "L0", "start": "2024-03-04T04:00:00", "end": "2024-03-04T06:00:00", "trackCount": 3}],
+        "maintenanceSlots": [{"id": "m", "location": "L0", "start": "2024-03-04T04:00:00", "end": "2024-03-04T06:00:00", "trackCount": 4}],
         "deadHeadTrips": {"indices": ["L0", "L1"], "durations": [[0, 1800], [2400, 0]], "distances": [[0, 12000], [17000, 0]]},
         "parameters": {
             "shunting": {"minimalDuration": 60, "deadHeadTripDuration": 120},
-            "maintenance": {"maximalDistance": 100000},
+            "maintenance": {"maximalDistance": max_distance},
             "costs": {"staff": 1, "serviceTrip": 2, "maintenance": 1, "deadHeadTrip": 5, "idle": 1}
         }
     })
@@ -462,18 +466,30 @@ pub fn exhaustive_cases() -> u64 {
 /// seven vehicles in ONE rotation cycle: every 3-opt move (all i<j<k), every pair of them, every
 /// move of a vehicle to the end of its own cycle and every removal, judged after each step
 fn long_cycle_case(out: &mut CaseOut) {
-    let b = Bridge::new(&small_instance()).expect("small instance");
+    // the allowance is tuned so that the counter of the cycle is close to zero: 3-opt moves then
+    // cross zero in both directions (improving and worsening)
+    let base = {
+        let b = Bridge::new(&small_instance_with(0)).expect("small instance");
+        long_cycle_world(&b).tr.maintenance_counter()
+    };
+    // four of the seven vehicles visit the slot
+    let a0 = base / 4;
+    for allowance in [a0 - 9000, a0 - 3000, a0, a0 + 2000, a0 + 8000, 100000] {
+        long_cycle_with(allowance.max(0), out);
+    }
+}
+
+fn long_cycle_world(b: &Bridge) -> World {
     let t = |id: &str| N::T(b.inst.trip_by_id[id]);
     let m = N::S(0);
-    let ov = b.inst.overflow();
     let paths: Vec<Vec<N>> = vec![
         vec![N::SD(0), t("a"), N::ED(0)],
         vec![N::SD(1), m, t("a"), t("b"), N::ED(0)],
-        vec![N::SD(ov), t("c"), N::ED(1)],
+        vec![N::SD(1), t("c"), N::ED(1)],
         vec![N::SD(0), m, t("d"), N::ED(1)],
-        vec![N::SD(1), t("c"), N::ED(0)],
+        vec![N::SD(1), m, t("c"), N::ED(0)],
         vec![N::SD(0), m, t("a"), N::ED(1)],
-        vec![N::SD(ov), t("d"), N::ED(ov)],
+        vec![N::SD(0), t("d"), N::ED(1)],
     ];
     let mut s = Schedule::empty(b.net.clone());
     let mut ids = Vec::new();
@@ -483,10 +499,21 @@ fn long_cycle_case(out: &mut CaseOut) {
         ids.push(id);
     }
     let tours: ImMap<VehicleIdx, Tour> = ids.iter().map(|v| (*v, s.tour_of(*v).unwrap().clone())).collect();
-    // one cycle holding all seven
     let mut w = World { tours: tours.clone(), members: [ids[0]].into_iter().collect(), tr: Transition::new_fast(&ids[..1], &tours, &b.net) };
     for v in &ids[1..] {
-        w = apply(&b, &w, &TOp::AddEnd { v: *v, cycle: 0 });
+        w = apply(b, &w, &TOp::AddEnd { v: *v, cycle: 0 });
+    }
+    w
+}
+
+fn long_cycle_with(allowance: i64, out: &mut CaseOut) {
+    let b = Bridge::new(&small_instance_with(allowance)).expect("small instance");
+    let w = long_cycle_world(&b);
+    let ids: Vec<VehicleIdx> = w.tr.get_cycle(0).iter().collect();
+    if w.tr.maintenance_counter() <= 0 {
+        out.count("long_cycle_worlds_with_counter_le_zero", 1);
+    } else {
+        out.count("long_cycle_worlds_with_counter_gt_zero", 1);
     }
     let mut sequences = 0u64;
     let mut judge = |w: &World, path: &[String], out: &mut CaseOut| {
@@ -495,7 +522,7 @@ fn long_cycle_case(out: &mut CaseOut) {
             out.viol("C15", &format!("{}.long_cycle", sig), format!("after {:?}: {}", path, detail));
         }
     };
-    judge(&w, &["seven vehicles in one cycle".to_string()], out);
+    judge(&w, &[format!("seven vehicles in one cycle, allowance {}", allowance)], out);
     let n = ids.len();
     let mut triples = Vec::new();
     for i in 0..n - 2 {
@@ -520,6 +547,9 @@ fn long_cycle_case(out: &mut CaseOut) {
             }
         };
         sequences += 1;
+        if (w1.tr.maintenance_counter() > 0) != (w.tr.maintenance_counter() > 0) {
+            out.count("long_cycle_moves_crossing_zero", 1);
+        }
         judge(&w1, &[o1.name()], out);
         if out.viols.len() > 20 {
             break;
